@@ -92,8 +92,9 @@ def simple_coq(t):
                                                 cstr(t.dtype), ostrs(t.constraints))
     if isinstance(t, SplineTerm):
         kn = 'None'
-        if hasattr(t, 'edge_knots_'):
-            kn = '(Some %s)' % nums([float(x) for x in np.asarray(t.edge_knots_, dtype=float).ravel()])
+        if hasattr(t, 'edge_knots_'):      # (given by the user?, knots)
+            kn = '(Some (%s, %s))' % (coq_bool(bool(getattr(t, '_edge_knots_given', False))),
+                                      nums([float(x) for x in np.asarray(t.edge_knots_, dtype=float).ravel()]))
         rec = '(mkS %s %s %s %s %s %s %s %s %s %s %s)' % (
             z(t.feature), z(t.n_splines), z(t.spline_order), nums(t.lam), ostrs(t.penalties), ostrs(t.constraints),
             cstr(t.basis), cstr(t.dtype), oz_coq(t.by), kn, coq_bool(t.verbose))
@@ -135,11 +136,12 @@ def vstatus(s):
 def simple_flags(t, in_tensor=False):
     from pygam.terms import SplineTerm, FactorTerm
     fl = set()
-    if isinstance(t, SplineTerm) and hasattr(t, 'edge_knots_'):
+    # only knots GIVEN BY THE USER survive a compile ("fix: a spline term kept the knots of the first data set it was compiled on")
+    if isinstance(t, SplineTerm) and hasattr(t, 'edge_knots_') and getattr(t, '_edge_knots_given', False):
         fl.add('knots')
     if isinstance(t, FactorTerm):
         if not (t.spline_order == 0 and t.basis == 'ps' and t.dtype == 'categorical' and t.by is None
-                and list(t.constraints) == [None] and t.n_splines == 20):
+                and list(t.constraints) == [None]):
             fl.add('hidden')
     return fl
 
@@ -565,7 +567,9 @@ def fresh_like(t):
         r = FactorTerm(t.feature, lam=list(t.lam), penalties=list(t.penalties), coding=t.coding, verbose=t.verbose)
         hidden = ('dtype', 'spline_order', 'by', 'n_splines', 'basis', 'constraints')
     else:
-        ek = [float(x) for x in np.asarray(t.edge_knots_).ravel()] if hasattr(t, 'edge_knots_') else None
+        ek = None          # knots are a setting only when the user gave them; otherwise every compile regenerates them
+        if hasattr(t, 'edge_knots_') and getattr(t, '_edge_knots_given', False):
+            ek = [float(x) for x in np.asarray(t.edge_knots_).ravel()]
         r = SplineTerm(t.feature, n_splines=t.n_splines, spline_order=t.spline_order, lam=list(t.lam),
                        penalties=list(t.penalties), constraints=list(t.constraints), dtype=t.dtype, basis=t.basis, by=t.by,
                        edge_knots=ek, verbose=t.verbose)
@@ -743,7 +747,7 @@ def use_assign_cases(res, rng, count):
                 except ValueError:
                     continue
                 M = np.frombuffer(pen[0][2], dtype=float).reshape(pen[0][1])
-                cases.append('(CPenalty %s (1#1000000000000) %s)' % (
+                cases.append('(CPenalty %s (QArith_base.Qmake 1%%Z 1000000000000%%positive) %s)' % (
                     ts, coq_list([coq_list([common.dylit(x) for x in row]) for row in M])))
                 meta.append(dict(kind='penalty', specs=specs, model_level=model_mode, history=list(hist)))
     return cases, meta
